@@ -209,7 +209,10 @@ func TestProp(t *testing.T) {
 	r.SetRule("histories of client operations {Login, AffirmLogin, GetServiceTicket(4 repeated SPNs, topology SPN), GetCachedTicket, advance(delta), Destroy+re-create} against a simulated multi-realm KDC under a virtual clock; delta drawn from the interesting instants of the tickets issued so far " +
 		"(just before / at / after endtime, the 5/6-lifetime auto-renew point, renew-till) and seeded values; seeded configurations over credential kind x etype list x pre-auth policy x forwardable x proxiable x canonicalize x renew_lifetime x ticket_lifetime x noaddresses x topology " +
 		"(single realm, mapped cross-realm with 3 services, referral chains 0..8, referral loop) x default_tgs_enctypes (same list as default_tkt_enctypes / another one) x keytab contents (all keys / keys of default_tkt_enctypes only); " +
-		"in the mapped cross-realm topology without renewable tickets the clock also passes the lifetime of the cross-realm TGT. Oracles: the KDC's strictly decoded request log vs the configuration; returned (ticket,key) pairs vs the KDC issue log and the virtual clock; round-trip bounds. distinct = (configuration, history index); non-trivial = history with >= 1 ticket returned")
+		"in the mapped cross-realm topology without renewable tickets the clock also passes the lifetime of the cross-realm TGT. Further families: configurations whose KDC hint carries ETYPE-INFO2 and a conflicting ETYPE-INFO in either order (the PA-ENC-TIMESTAMP sent after a hint must be under the hinted etype, RFC 4120 5.2.7.5); " +
+		"user-to-user TGS requests built with messages.NewUser2UserTGSReq from the client's TGT and a peer's TGT and sent through TGSExchange (request judged, reply not); clients built by client.NewFromCCache from a cache " +
+		"(ref/ccache) of renewable tickets issued by the KDC, the clock walking over the end times of the service tickets and the TGT (whatever is handed out must be an issued pair valid at that instant). " +
+		"Oracles: the KDC's strictly decoded request log vs the configuration; returned (ticket,key) pairs vs the KDC issue log and the virtual clock; round-trip bounds. distinct = (configuration, history index); non-trivial = history with >= 1 ticket returned")
 	r.Assume("simulated KDC conformant to RFC 4120 for the driven exchanges; KDC clock follows the virtual clock with a lag < 5 s")
 	r.Note("nonce reuse between the two AS-REQs of one pre-authenticated login is observed, not judged (not in the statement)")
 
@@ -235,6 +238,17 @@ func TestProp(t *testing.T) {
 			renew: 0, life: vh.Pick(crnd, 10*time.Minute, 24*time.Hour), topology: "xrealm-mapped"}
 		confs = append(confs, c)
 	}
+	// a third family: the KDC's pre-authentication hint carries both ETYPE-INFO2 and a conflicting ETYPE-INFO (either order)
+	nconfH := 10
+	if vh.Thorough() {
+		nconfH = 100
+	}
+	for i := 0; i < nconfH; i++ {
+		c := conf{kind: []string{"pw", "kt", "pwsa"}[i%3], etlist: crnd.Intn(len(etLists)), policy: bothHintPolicies[(i/3)%2],
+			fwd: crnd.Bool(), prox: crnd.Bool(), canon: crnd.Bool(), noaddr: crnd.Bool(),
+			renew: vh.Pick(crnd, time.Duration(0), 7*24*time.Hour), life: vh.Pick(crnd, 10*time.Minute, 24*time.Hour), topology: "single"}
+		confs = append(confs, c)
+	}
 	// default_tgs_enctypes: the same list as default_tkt_enctypes in half of the configurations, another one in the others;
 	// keytab clients: the keytab holds all keys or only those of default_tkt_enctypes
 	for i := range confs {
@@ -246,14 +260,29 @@ func TestProp(t *testing.T) {
 		confs[i].ktOnly = confs[i].kind == "kt" && xr.Bool()
 	}
 	type job struct {
-		c conf
-		h int
+		c   conf
+		h   int
+		fam string // "" = history; "u2u" = user-to-user requests; "ccache" = client built from a credential cache
 	}
 	var jobs []job
 	for _, c := range confs {
 		for h := 0; h < nhist; h++ {
-			jobs = append(jobs, job{c, h})
+			jobs = append(jobs, job{c, h, ""})
 		}
+	}
+	nU2U, nCC := 16, 16
+	if vh.Thorough() {
+		nU2U, nCC = 300, 300
+	}
+	for i := 0; i < nU2U; i++ {
+		c := confs[(i*7)%len(confs)]
+		c.topology, c.ktOnly = "single", false
+		jobs = append(jobs, job{c, i, "u2u"})
+	}
+	for i := 0; i < nCC; i++ {
+		c := confs[(i*5+1)%len(confs)]
+		c.topology, c.ktOnly, c.life, c.renew = "single", false, 10*time.Minute, 7*24*time.Hour
+		jobs = append(jobs, job{c, i, "ccache"})
 	}
 	nw := 12
 	ch := make(chan int, 16)
@@ -272,10 +301,20 @@ func TestProp(t *testing.T) {
 			for ji := range ch {
 				j := jobs[ji]
 				ck := fmt.Sprintf("%s/h%d", j.c, j.h)
+				if j.fam != "" {
+					ck = fmt.Sprintf("%s/%s%d", j.c, j.fam, j.h)
+				}
 				if !r.Mine(ck) {
 					continue
 				}
-				runHistory(t, r, w, ck, j.c, nops)
+				switch j.fam {
+				case "u2u":
+					runU2U(t, r, w, ck, j.c)
+				case "ccache":
+					runCCache(t, r, w, ck, j.c)
+				default:
+					runHistory(t, r, w, ck, j.c, nops)
+				}
 			}
 		}(wi)
 	}
@@ -299,6 +338,13 @@ func TestProp(t *testing.T) {
 	r.Require("logins_with_keytab_of_tkt_enctypes_only", 5)
 	r.Require("advances_across_xrealm_tgt_refresh_point", 4)
 	r.Require("xrealm_tickets_obtained_after_tgt_refresh_due", 2)
+	r.Require("preauth_etype_matches_hint", 30)
+	r.Require("preauth_etype_matches_info2_with_conflicting_info", 8)
+	r.Require("u2u_requests_pa_tgs_req_verified", 8)
+	r.Require("ccache_clients_built", 8)
+	r.Require("ccache_renewable_tickets_imported", 8)
+	r.Require("ccache_tickets_returned_matched_issue_log", 8)
+	r.Require("ccache_ended_ticket_not_served", 4)
 }
 
 func runHistory(t *testing.T, r *vh.Run, w *world, ck string, c conf, nops int) {
@@ -701,6 +747,7 @@ func runHistory(t *testing.T, r *vh.Run, w *world, ck string, c conf, nops int) 
 			nonces[rq.Req.Body.Nonce]++
 		}
 	}
+	checkPreauthEtypeAfterHint(r, viol, c, w, reqs)
 	for _, n := range nonces {
 		if n > 2 {
 			r.Inc("observe_nonce_used_more_than_twice")
